@@ -228,6 +228,10 @@ func printWrappedLine(keyColor, key, value string) {
 
 // wrapText splits the input text into lines of at most `width` characters each.
 func wrapText(text string, width int) []string {
+	if width <= 0 {
+		// a key as wide as the box leaves no room to wrap into
+		return []string{text}
+	}
 	var lines []string
 	for len(text) > width {
 		lines = append(lines, text[:width])
